@@ -93,6 +93,8 @@ func (g *gen) load(fr *frame, n *node, st *State, addr ssa.Value, pos token.Pos)
 			v = g.loadAt(st, app("fld", fa.base, fmt.Sprint(fa.idx)), fa.field.Type())
 		} else if _, ok := fa.field.Type().Underlying().(*types.Array); ok {
 			v = "0"
+		} else if lv, ok := g.localCell[fa.base+"#"+fa.field.Name()]; ok {
+			v = g.svGet(st, lv, sortOf(fa.field.Type()))
 		} else {
 			m := g.svGet(st, fieldMapName(fa.structT, fa.field.Name()), "(Array Ref "+sortOf(fa.field.Type())+")")
 			v = app("select", m, fa.base)
@@ -150,6 +152,10 @@ func (g *gen) store(fr *frame, n *node, st *State, addr ssa.Value, val Val, pos 
 			return
 		}
 		if _, ok := fa.field.Type().Underlying().(*types.Array); ok {
+			return
+		}
+		if lv, ok := g.localCell[fa.base+"#"+fa.field.Name()]; ok {
+			g.svSet(st, lv, sortOf(fa.field.Type()), val.(string))
 			return
 		}
 		name := fieldMapName(fa.structT, fa.field.Name())
@@ -235,6 +241,9 @@ func (g *gen) execInstr(fr *frame, cur *node, st *State, ins ssa.Instruction) *n
 		ref := app("obj", id)
 		fr.vals[x] = ref
 		el := x.Type().Underlying().(*types.Pointer).Elem()
+		if _, isArr := el.Underlying().(*types.Array); !isArr && nonEscaping(x) {
+			g.registerLocal(ref, el, "L."+fr.fn.Name()+"."+x.Name())
+		}
 		if _, isArr := el.Underlying().(*types.Array); !isArr {
 			g.storeAt(cur, st, ref, el, g.zeroVal(el))
 		}
@@ -258,7 +267,7 @@ func (g *gen) execInstr(fr *frame, cur *node, st *State, ins ssa.Instruction) *n
 		case *types.Slice:
 			s := g.sval(fr, x.X)
 			g.safety(cur, "bounds", "", x.Pos(), and(app("<=", "0", idx), app("<", idx, app("slen", s))))
-			fr.vals[x] = app("elem", app("sbase", s), app("+", app("soff", s), idx))
+			fr.vals[x] = app("eref", s, idx)
 		case *types.Pointer:
 			arr, ok := t.Elem().Underlying().(*types.Array)
 			if !ok {
@@ -824,4 +833,71 @@ func (g *gen) execNext(fr *frame, cur *node, st *State, x *ssa.Next) {
 	// expose to invariants
 	g.iterFacts[k] = [3]string{cnt, seq, m}
 	_ = strings.TrimSpace
+}
+
+// nonEscaping: the address of the allocation is only loaded from, stored to, indexed, or
+// captured by closures that are themselves only called or deferred in place.
+func nonEscaping(a *ssa.Alloc) bool {
+	var ok func(v ssa.Value, depth int) bool
+	ok = func(v ssa.Value, depth int) bool {
+		if depth > 4 || v.Referrers() == nil {
+			return false
+		}
+		for _, r := range *v.Referrers() {
+			switch u := r.(type) {
+			case *ssa.DebugRef:
+			case *ssa.UnOp:
+				if u.Op != token.MUL {
+					return false
+				}
+			case *ssa.Store:
+				if u.Val == v {
+					return false
+				}
+			case *ssa.FieldAddr:
+				if !ok(u, depth+1) {
+					return false
+				}
+			case *ssa.IndexAddr:
+				if !ok(u, depth+1) {
+					return false
+				}
+			case *ssa.Slice:
+				return false
+			case *ssa.MakeClosure:
+				// the closure value must only be called/deferred directly
+				if u.Referrers() == nil {
+					return false
+				}
+				for _, cr := range *u.Referrers() {
+					switch c := cr.(type) {
+					case *ssa.Defer:
+						if c.Call.Value != u {
+							return false
+						}
+					case *ssa.Call:
+						if c.Call.Value != u {
+							return false
+						}
+					case *ssa.DebugRef:
+					default:
+						return false
+					}
+				}
+				// and inside the closure the free variable must not escape either
+				fn := u.Fn.(*ssa.Function)
+				for bi, b := range u.Bindings {
+					if b == v {
+						if !ok(fn.FreeVars[bi], depth+1) {
+							return false
+						}
+					}
+				}
+			default:
+				return false
+			}
+		}
+		return true
+	}
+	return ok(a, 0)
 }
